@@ -81,12 +81,16 @@ var c38syms = map[string]c38sym{
 	"Htrb":  {name: "Htrb", op: "header", k: "Trailer", vals: []string{"X-Tb"}, when: 1},
 	"Tbig":  {name: "Tbig", op: "header", k: "X-Tb", vals: []string{strings.Repeat("X", 17000), strings.Repeat("Z", 17000)}},
 	// body
-	"W0":    {name: "W0", op: "write", n: 0},
-	"W1":    {name: "W1", op: "write", n: 1},
-	"W4096": {name: "W4096", op: "write", n: 4096},
-	"W4097": {name: "W4097", op: "write", n: 4097},
-	"F":     {name: "F", op: "flush"},
-	"R":     {name: "R", op: "return"},
+	"W0":     {name: "W0", op: "write", n: 0},
+	"W1":     {name: "W1", op: "write", n: 1},
+	"W4096":  {name: "W4096", op: "write", n: 4096},
+	"W4097":  {name: "W4097", op: "write", n: 4097},
+	"W4":     {name: "W4", op: "write", n: 4},
+	"W5":     {name: "W5", op: "write", n: 5},
+	"W12":    {name: "W12", op: "write", n: 12},
+	"W40000": {name: "W40000", op: "write", n: 40000, max: 2}, // split by MAX_FRAME_SIZE 16384 (+ window on the 2nd use)
+	"F":      {name: "F", op: "flush"},
+	"R":      {name: "R", op: "return"},
 }
 
 type c38family struct {
@@ -165,10 +169,18 @@ func c38ctr(s c38sym) string {
 
 // c38step runs one symbol on the real handler and on the model.
 func c38step(h *h2handler, m *c38model, s c38sym) {
+	if c38stepB(h, m, s) {
+		// cannot happen inside the bounds of the window-less families (body < initial window)
+		panic("c38: handler operation blocked: " + strings.Join(m.hist, " "))
+	}
+}
+
+// c38stepB is c38step for the flow-control families: the operation may block inside the server
+// (a Flush waiting for window); the result is collected later with h.poll().
+func c38stepB(h *h2handler, m *c38model, s c38sym) (blocked bool) {
 	use := m.uses[c38ctr(s)]
 	m.uses[c38ctr(s)]++
 	m.hist = append(m.hist, s.name)
-	var blocked bool
 	switch s.op {
 	case "header":
 		if s.many > 0 {
@@ -195,10 +207,7 @@ func c38step(h *h2handler, m *c38model, s c38sym) {
 		_, blocked = h.do(h2cmd{op: "return"})
 		m.commit(200)
 	}
-	if blocked {
-		// cannot happen inside the stated bounds (body < initial window, client never stalls)
-		panic("c38: handler operation blocked: " + strings.Join(m.hist, " "))
-	}
+	return blocked
 }
 
 func c38join(v []string) string { return strings.Join(v, "\x1f") }
@@ -659,4 +668,180 @@ func TestVerifC38(t *testing.T) {
 		r.States(n)
 		r.Set("family_"+f.name, fmt.Sprintf("alphabet %v, scripts of <= %d operations + return, x {GET,HEAD}, complete=%v", f.syms, depth, complete))
 	}
+	for _, f := range c38winFamilies {
+		f := f
+		depth := r.Pick(f.dq, f.dt)
+		complete := true
+		var nth int64
+		n := vk.ExploreSharded(r, f.name, 3, -1, func(ch *vk.Chooser) {
+			nth++
+			c38execWin(t, r, f, depth, ch, nth)
+		}, func() bool {
+			if r.Expired("c38 " + f.name) {
+				complete = false
+				return true
+			}
+			return false
+		})
+		r.Traces(n)
+		r.States(n)
+		r.Set("family_"+f.name, fmt.Sprintf("initial stream window %d (0=default 65535), handler prefix write %d, trailer=%v, handler ops %v, client events %v, all interleavings of <= %d events then drain, GET, complete=%v", f.initWin, f.prefix, f.trailer, f.hops, f.cevs, depth, complete))
+	}
+}
+
+// ---- flow-control families: every way a stream-ending write can be fragmented -----------------
+//
+// The response tail handed to the connection when the handler returns with buffered bytes is ONE
+// DATA write carrying END_STREAM and 1..4096 octets. The write scheduler splits it when the send
+// window (min of stream and connection window) is > 0 but smaller. The client here advertises a
+// tiny stream window (4) and/or lets the handler drain the 65535-octet connection window first, and
+// then opens the windows in steps: client WINDOW_UPDATE events are interleaved in every order with
+// the handler's Write / Flush / return. (SETTINGS_MAX_FRAME_SIZE cannot be below 16384, so it can
+// never split the <= 4096-octet tail; family win-frame covers frame-size splitting of larger,
+// non-final writes.) The oracle is the unchanged c38check after the windows were opened for good:
+// bytes received before END_STREAM == all bytes the handler wrote, exactly one END_STREAM, last.
+
+type c38cev struct {
+	name   string
+	stream bool // WINDOW_UPDATE on stream 1 (else on the connection)
+	n      uint32
+}
+
+type c38winFam struct {
+	name    string
+	initWin uint32 // client SETTINGS_INITIAL_WINDOW_SIZE (0: keep the default 65535)
+	prefix  int    // octets the handler writes in one Write before the script (drains windows)
+	trailer bool   // handler declares and sets trailer X-T1 first: the stream ends with trailers
+	hops    []string
+	cevs    []c38cev
+	dq, dt  int
+}
+
+const c38big = 100000
+
+var c38winFamilies = []c38winFam{
+	// stream window 4, connection window ample; tails 1, 4 (= window), 5 (window+1), 12 (3 fragments)
+	{"win-sw", 4, 0, false, []string{"W1", "W4", "W5", "W12", "F", "R"}, []c38cev{{"s+1", true, 1}, {"s+4", true, 4}, {"s+big", true, c38big}}, 4, 5},
+	// same, the response ends with a trailer block instead of DATA
+	{"win-swt", 4, 0, true, []string{"W1", "W5", "F", "R"}, []c38cev{{"s+1", true, 1}, {"s+4", true, 4}, {"s+big", true, c38big}}, 4, 5},
+	// stream window ample (1 MiB), connection window drained to 4 by a 65531-octet write
+	{"win-cw", 1 << 20, 65531, false, []string{"W1", "W4", "W5", "W12", "F", "R"}, []c38cev{{"c+1", false, 1}, {"c+4", false, 4}, {"c+big", false, c38big}}, 4, 5},
+	// both windows at 4 (default 65535 each, drained by the same write), opened independently
+	{"win-both", 0, 65531, false, []string{"W1", "W5", "W12", "F", "R"}, []c38cev{{"s+4", true, 4}, {"c+4", false, 4}, {"s+big", true, c38big}, {"c+big", false, c38big}}, 4, 5},
+	// default windows; 40000-octet writes are split by MAX_FRAME_SIZE (16384), the second one also by the window
+	{"win-frame", 0, 0, false, []string{"W40000", "W1", "F", "R"}, []c38cev{{"s+big", true, c38big}, {"c+big", false, c38big}}, 4, 5},
+}
+
+// c38ended reports whether the client has seen END_STREAM on stream 1.
+func c38ended(e *h2env) bool {
+	e.recv()
+	for _, f := range e.frames {
+		if f.StreamID == 1 && f.EndStream {
+			return true
+		}
+	}
+	return false
+}
+
+func c38windowUpdate(e *h2env, ev c38cev) {
+	var id uint32
+	if ev.stream {
+		id = 1
+	}
+	e.fr.WriteWindowUpdate(id, ev.n)
+	e.flushFrame()
+}
+
+func c38execWin(t *testing.T, r *vk.Run, f c38winFam, depth int, ch *vk.Chooser, nth int64) {
+	h2run(t, nil, false, func(e *h2env) {
+		e.recv()
+		if f.initWin != 0 {
+			e.fr.WriteSettings(Setting{SettingInitialWindowSize, f.initWin})
+			e.flushFrame()
+		}
+		m := &c38model{method: "GET", live: map[string][]string{}, uses: map[string]int{}}
+		e.request(1, m.method, "/s1", true)
+		h := e.handler("/s1")
+		if h == nil {
+			panic("c38: handler not started")
+		}
+		if f.trailer {
+			c38step(h, m, c38syms["Htr"])
+			c38step(h, m, c38syms["Tval"])
+		}
+		if f.prefix > 0 {
+			// one Write larger than the 4 KiB buffer goes straight to the connection
+			c38step(h, m, c38sym{name: fmt.Sprintf("W%d", f.prefix), op: "write", n: f.prefix})
+		}
+		returned := false
+		for d := 0; d < depth; d++ {
+			h.poll()
+			ended := c38ended(e)
+			var hevs []c38sym
+			if !returned && !h.busy {
+				for _, n := range f.hops {
+					s := c38syms[n]
+					if s.max > 0 && m.uses[c38ctr(s)] >= s.max {
+						continue
+					}
+					hevs = append(hevs, s)
+				}
+			}
+			var cevs []c38cev
+			if !ended {
+				cevs = f.cevs
+			}
+			if len(hevs)+len(cevs) == 0 {
+				break
+			}
+			i := ch.Choose(len(hevs) + len(cevs))
+			if ch.Skipped {
+				return
+			}
+			if i < len(hevs) {
+				c38stepB(h, m, hevs[i])
+				returned = returned || hevs[i].op == "return"
+			} else {
+				ev := cevs[i-len(hevs)]
+				m.hist = append(m.hist, ev.name)
+				c38windowUpdate(e, ev)
+			}
+			r.Transitions(1)
+		}
+		for len(ch.Trace()) < 3 { // pad the trace to the shard depth (no alternative)
+			ch.Choose(1)
+			if ch.Skipped {
+				return
+			}
+		}
+		// drain: open both windows for good, let the handler finish
+		for round := 0; round < 4; round++ {
+			h.poll()
+			if returned && c38ended(e) {
+				break
+			}
+			if !c38ended(e) {
+				c38windowUpdate(e, c38cev{"s+big", true, c38big})
+				c38windowUpdate(e, c38cev{"c+big", false, c38big})
+			}
+			h.poll()
+			if !returned && !h.busy {
+				c38stepB(h, m, c38syms["R"])
+				returned = true
+				r.Transitions(1)
+			}
+		}
+		m.hist = append(m.hist, "|drain")
+		h.poll()
+		e.recv()
+		id := ch.CaseID(f.name)
+		shape := c38check(r, id, e, h, m)
+		r.Outcome(fmt.Sprintf("%s:%s:%s", f.name, m.method, shape))
+		r.Case(id)
+		r.Nontrivial(f.name + ":" + strings.Join(m.hist, " "))
+		if nth%1501 == 17 {
+			merged, _ := c38mergeBlocks(c38stream1(e))
+			r.Sample(map[string]interface{}{"family": f.name, "events": strings.Join(m.hist, " "), "server_frames": h2traceShort(merged), "handler_wrote": len(h.wrote)})
+		}
+	})
 }
